@@ -167,6 +167,11 @@ func (ex *Exec) lock(st *State, fr *Frame, instr ssa.Instruction, p Val) {
 	ls := ex.specs.Locks[key]
 	ex.havocClosed(st)
 	ex.observeCtx(st)
+	for a := range ex.heapSort { // queue lengths of shared channels are only known through lock invariants
+		if strings.HasPrefix(a, "chlen") {
+			st.havoc(a)
+		}
+	}
 	if ls != nil {
 		self := ex.selfOf(p)
 		ex.havocGuards(st, ls, self)
@@ -245,7 +250,7 @@ func (ex *Exec) blockingUnderLock(st *State, fr *Frame, instr ssa.Instruction, c
 	if l == "" {
 		return
 	}
-	goal := "(< " + st.read("chlen", "Int", ch.T) + " (ch_cap " + ch.T + "))"
+	goal := "(< " + st.read(chlenArr(ch), "Int", ch.T) + " (ch_cap " + ch.T + "))"
 	ex.oblige(st, "no-blocking-under-lock", fmt.Sprintf("%s/C11.send_under_%s#%d", fr.key, l, ex.ordinalOf(fr, instr, "send")),
 		[]string{"C11.no_blocking_under_teardown_lock"}, goal, nil, ex.posOf(instr))
 }
@@ -258,7 +263,7 @@ func (ex *Exec) selectUnderLock(st *State, fr *Frame, sel *ssa.Select, ch Val) {
 	if l == "" {
 		return
 	}
-	goal := "(< " + st.read("chlen", "Int", ch.T) + " (ch_cap " + ch.T + "))"
+	goal := "(< " + st.read(chlenArr(ch), "Int", ch.T) + " (ch_cap " + ch.T + "))"
 	ex.oblige(st, "no-blocking-under-lock", fmt.Sprintf("%s/C11.select_send_under_%s#%d", fr.key, l, ex.ordinalOf(fr, sel, "select")),
 		[]string{"C11.no_blocking_under_teardown_lock"}, goal, nil, ex.posOf(sel))
 }
@@ -274,7 +279,22 @@ func (ex *Exec) fieldSpecFor(arr string) (*FieldSpec, string) {
 }
 
 func (ex *Exec) discipline(st *State, fr *Frame, instr ssa.Instruction, p Val, isWrite bool) {
-	if !ex.disciplineOn || p.Arr == "" {
+	if p.Arr == "" {
+		return
+	}
+	if fs, key := ex.fieldSpecFor(p.Arr); fs != nil && fs.Disc == "used_only_in" {
+		ok := "false"
+		for _, f := range fs.Args {
+			if f == fr.key || f == ex.curKey {
+				ok = "true"
+			}
+		}
+		if ok == "false" {
+			ex.oblige(st, "used-only-in", fmt.Sprintf("%s#uses@%s", fr.key, key), fs.Labels, ok, nil, ex.posOf(instr))
+		}
+		return
+	}
+	if !ex.disciplineOn {
 		return
 	}
 	fs, key := ex.fieldSpecFor(p.Arr)
